@@ -28,3 +28,16 @@ impl Drop for D24 {
 impl Drop for D3 {
     fn drop(&mut self) { unsafe { ghost::rec_drop(self as *mut D3 as *mut u8, 1) } }
 }
+
+pub fn mk_z0() -> Z0 { Z0 }
+pub fn mk_e1() -> E1 { E1([0]) }
+pub fn mk_e2() -> E2 { E2(0) }
+pub fn mk_e3() -> E3 { E3([0; 3]) }
+pub fn mk_e8() -> E8 { E8(0) }
+pub fn mk_e12() -> E12 { E12([0; 3]) }
+pub fn mk_e16() -> E16 { E16([0; 16]) }
+pub fn mk_e24() -> E24 { E24([0; 3]) }
+pub fn mk_e160() -> E160 { E160([0; 20]) }
+pub fn mk_d3() -> D3 { D3([0; 3]) }
+pub fn mk_d8() -> D8 { D8(0) }
+pub fn mk_d24() -> D24 { D24([0; 3]) }
